@@ -11,6 +11,7 @@ import (
 
 	"rtpcheck/bits"
 	"rtpcheck/core"
+	"rtpcheck/own"
 )
 
 func init() {
@@ -506,6 +507,16 @@ func c16(c *Ctx) {
 	}
 	n += opusRules(c)
 	r.Floor("audio rule instances", n, 14)
+	// the three audio payloaders hand out freshly allocated fragments and never write the input (OWN O2/O3)
+	no := 0
+	for _, name := range []string{"codecs.(*G711Payloader).Payload", "codecs.(*G722Payloader).Payload", "codecs.(*OpusPayloader).Payload"} {
+		if f := p.Func(name); f != nil {
+			res := own.Analyze(p, f)
+			no += ownFreshOut(c, res)
+			no += ownNoWriteInput(c, res, 2)
+		}
+	}
+	r.Floor("audio payloader origin checks (O2/O3)", no, 6)
 	var entries []*ssa.Function
 	for _, nme := range []string{"codecs.(*G711Payloader).Payload", "codecs.(*G722Payloader).Payload", "codecs.(*OpusPayloader).Payload", "codecs.(*OpusPacket).Unmarshal"} {
 		if f := p.Func(nme); f != nil {
